@@ -125,7 +125,7 @@ def check_rodded(res, reg, T_int, T_byp, temps, p_duct, t_gap, h_gap,
         else:
             fout = hout * (Tso - Tout)          # out of the wall, W/m2
         scale = np.abs(fin) + np.abs(fout) + np.abs(qv) * t \
-            + hin * np.abs(Tin) * 1e-6
+            + (hin + hout) * np.abs(Tin) * 1e-5
         resid = fin + qv * t - fout
         res.close('D1_flux_balance', float(np.max(np.abs(resid) / scale)),
                   1.0, TOL, 'heat into the wall + generation != heat out',
@@ -177,7 +177,7 @@ def check_unrodded(res, reg, T_c, temps, t_gap, h_gap, adiabatic, k_used,
     Tout = np.asarray(t_gap, dtype=float)
     fin = hin * (Tin - Tsi)
     fout = hout * (Tso - Tout)
-    scale = np.abs(fin) + np.abs(fout) + hin * np.abs(Tin) * 1e-6
+    scale = np.abs(fin) + np.abs(fout) + (hin + hout) * np.abs(Tin) * 1e-5
     res.close('D1_flux_balance', float(np.max(np.abs(fin - fout) / scale)),
               1.0, TOL, 'heat into the wall != heat out', k2)
     res.close('D2_midwall_parabola', float(np.max(np.abs(
